@@ -160,16 +160,16 @@ def resolveId (id : Nat) : Nat :=
   let word := id / lamBase - 1
   if Float.ofBits (UInt64.ofNat word) > 0.5 then k else k - 1
 
-/-- record layout of the generated programs. Function words are abstract (`1 + K` for `tK`, `100 + K` for the closure
-of `selK`): all the real ones are small table indices, distinct, and — read as an f64 — denormal (`> 0.5` false);
-the captured words the generator uses (0.7, 0.3, 0.9, 0.1) have low 32 bits far outside the function table, so a
-captured word read as a function word traps. -/
+/-- record layout of the generated programs. Function words are abstract (`1 + K` for `tK`, `lamBase + 1 + K` for the
+closure of `selK`): all the real ones are small table indices, distinct, and — read as an f64 — denormal (`> 0.5`
+false); the captured words the generator uses (0.7, 0.3, 0.9, 0.1) have low 32 bits far outside the function table, so
+a captured word read as a function word traps. -/
 def tableFmt : RecFmt where
-  cells := fun id => if id < lamBase then [1 + id] else [100 + id % lamBase, id / lamBase - 1]
+  cells := fun id => if id < lamBase then [1 + id] else [lamBase + 1 + id % lamBase, id / lamBase - 1]
   decode := fun rd =>
     let w := rd 0
-    if 1 ≤ w ∧ w < 100 then some (w - 1)
-    else if 100 ≤ w ∧ w < 200 then some (lamId (w - 100) (rd 1))
+    if 1 ≤ w ∧ w ≤ lamBase then some (w - 1)
+    else if lamBase < w ∧ w ≤ 2 * lamBase then some (lamId (w - lamBase - 1) (rd 1))
     else none
 
 /-- the `schedule_at` calls of a request list evaluated at sample `now`:
